@@ -198,7 +198,7 @@ func siteSig(id int) string {
 // race, deadlock or panic.
 func c12FirstUse(r *core.Run) {
 	src := r.Src
-	e := newEnv(r, sched.Config{SwitchDen: 1, AccessDen: []int{0, 8, 32}[src.Intn(3)]}, memfs.Cred{})
+	e := newEnv(r, sched.Config{SwitchDen: 1, AccessDen: []int{0, 8, 32}[src.Intn(3)], MaxSteps: 400000}, memfs.Cred{})
 	e.w.RaceOn()
 	e.admin.MkdirAll("/etc/cdi", 0o755)
 	e.admin.WriteFile("/etc/cdi/static.json", gen.Encode(c12Spec("S", "d0"), true), 0o644)
@@ -226,13 +226,19 @@ func c12FirstUse(r *core.Run) {
 	}
 	r.Notef("first use of the default cache by %d tasks: %v", n, kinds)
 	e.w.Run(func() bool {
+		if len(e.w.Races) > 0 {
+			return true
+		}
 		for _, t := range tasks {
 			if !t.Done {
 				return false
 			}
 		}
-		return len(e.w.Races) > 0
+		return true
 	})
+	if len(e.w.Races) == 0 {
+		e.w.Quiesce() // the goroutines the first use started run on until they rest
+	}
 	if len(e.w.Races) > 0 {
 		rc := e.w.Races[0]
 		a, b := siteSig(rc.PrevSite), siteSig(rc.CurSite)
@@ -271,7 +277,7 @@ func c12(r *core.Run) {
 	r.Knob("auto_refresh", auto)
 	r.Knob("default_cache", useDefault)
 	r.Knob("access_preemption_den", accessDen)
-	e := newEnv(r, sched.Config{SwitchDen: []int{1, 1, 2, 3}[src.Intn(4)], AccessDen: accessDen}, memfs.Cred{})
+	e := newEnv(r, sched.Config{SwitchDen: []int{1, 1, 2, 3}[src.Intn(4)], AccessDen: accessDen, MaxSteps: 400000}, memfs.Cred{})
 	e.w.RaceOn()
 	if auto && src.Bool(1, 6) {
 		e.w.FS.MaxQueuedEvents = 3 + src.Intn(6) // event loss by queue overflow: exercises the watcher's error path
